@@ -1,12 +1,16 @@
+mod c16;
+mod c18;
+
 fn main() {
     let args = vf_core::parse_args();
     let mut run = vf_core::Run::new(&args, "exploration");
     match args.property.as_str() {
+        "C16" => c16::run(&mut run),
+        "C18" => c18::run(&mut run),
         other => {
-            eprintln!("vf-air does not serve {other} yet (planned: C16 C18)");
+            eprintln!("vf-air does not serve {other}");
             std::process::exit(2);
         },
     }
-    #[allow(unreachable_code)]
     run.finish_and_exit();
 }
